@@ -24,6 +24,8 @@ import vk
 FAMILY = "transfermw"
 SPEC_DIR = os.path.join(vk.SPEC, "transfermw")
 PROPS = ["C41", "C42", "C43"]
+# monitor failures of these ids are reported too (judged by another family's property via "also" in its registry entry)
+DIAG_PROPS = ["C44"]
 
 # state of the real chains after the set-up of harness/transfermw/rl.go (checked by the trace spec's X monitors)
 RL_INIT = dict(SUPN=4000, SUPV=1000, NS_AB=2, NS_AC=1, NR=2)
@@ -51,7 +53,7 @@ def rl_mc_constants(tier):
         return dict(HOUR=4, PATHS={"N/AB"}, AMTS={40, 41}, QSS={2}, QRS={2}, DURS={1}, DTS={1}, BDTS={3},
                     FATES_OUT={"ok", "err", "to"}, FATES_IN={"ok", "err", "ferr"}, SEND_CH={"AB"}, MaxPk=2, MaxT=7,
                     SUPN=4000, SUPV=1000)
-    return dict(HOUR=4, PATHS={"N/AB", "V/AB"}, AMTS={40, 41}, QSS={2}, QRS={2, 5}, DURS={1, 2}, DTS={1, 3}, BDTS={1, 3},
+    return dict(HOUR=4, PATHS={"N/AB", "V/AB"}, AMTS={40, 41}, QSS={2}, QRS={2}, DURS={1, 2}, DTS={1}, BDTS={3},
                 FATES_OUT={"ok", "err", "to"}, FATES_IN={"ok", "err", "fok", "ferr"}, SEND_CH={"AB"}, MaxPk=3, MaxT=7,
                 SUPN=4000, SUPV=1000)
 
@@ -131,6 +133,17 @@ def rl_boundary_schedules():
             {"a": "Recv", "dt": 1, "d": "N", "ch": "AB", "amt": 1, "fate": "ok"},
             {"a": "Send", "dt": 1, "d": "N", "ch": "AB", "amt": 800, "fate": "ok"},
             {"a": "Send", "dt": 1, "d": "N", "ch": "AB", "amt": 1, "fate": "ok"}]},
+        # asynchronously acknowledged (forwarded) receives resolved inside the window: failed forwards are undone, a
+        # successful one stays counted
+        {"id": "RL-b4", "kind": "RL", "acts": [
+            add, {"a": "Recv", "dt": 1, "d": "N", "ch": "AB", "amt": 100, "fate": "ferr"},
+            {"a": "Recv", "dt": 1, "d": "N", "ch": "AB", "amt": 60, "fate": "fok"},
+            {"a": "Recv", "dt": 1, "d": "N", "ch": "AB", "amt": 30, "fate": "fto"},
+            {"a": "Resolve", "dt": 1, "pkt": _pk("AB", RL_INIT["NR"], "N", 100, "ferr", "in", RL_INIT["NS_AC"])},
+            {"a": "Resolve", "dt": 1, "pkt": _pk("AB", RL_INIT["NR"] + 2, "N", 30, "fto", "in", RL_INIT["NS_AC"] + 2)},
+            {"a": "Resolve", "dt": 1, "pkt": _pk("AB", RL_INIT["NR"] + 1, "N", 60, "fok", "in", RL_INIT["NS_AC"] + 1)},
+            {"a": "Recv", "dt": 1, "d": "N", "ch": "AB", "amt": 340, "fate": "ok"},
+            {"a": "Recv", "dt": 1, "d": "N", "ch": "AB", "amt": 1, "fate": "ok"}]},
         # epoch boundary exactly at the hour (tick 12): no reset at 12, reset at 13
         {"id": "RL-b3", "kind": "RL", "acts": [
             add, {"a": "Send", "dt": 1, "d": "N", "ch": "AB", "amt": 100, "fate": "to"},
@@ -285,7 +298,7 @@ def pfm_mc_constants(tier):
 def pfm_sched_constants(tier, depth, outdir):
     return dict(TOKENS={"TA", "TB", "TC", "TD"}, DEPTHS={1, 2, 3} if tier != "quick" else {2, 3}, AMTS={7, 13}, RETS={0, 1},
                 TOS={10, 3}, FINS={"rcvr", "bad"}, BADHOPS={0, 1, 2}, EXPS={0, 5}, Depth=depth, OutDir=outdir,
-                ADV_PCT=12, TIMEOUT_PCT=35)
+                ADV_PCT=12, TIMEOUT_PCT=35, XI_PCT=8)
 
 
 def run_mc_pfm(tier, d):
@@ -464,6 +477,8 @@ def coverage_of(groups):
                     cov["RL:limited:%s:%s" % (name, d["res"])] += 1
                 if d["st"]["ps"] or d["st"]["pr"]:
                     cov["RL:pending:%s:%s" % (name, d["res"])] += 1
+                if name == "XImport":
+                    cov["RL:XImport/%s:%s" % (d.get("xi"), d["res"])] += 1
                 sigs["C41"].add((name, d["res"], d.get("ack"), fate, a.get("d"), a.get("ch"), bool(d["st"]["rl"]), d.get("nb")))
             elif kind == "DENOM":
                 if name == "Case":
@@ -482,6 +497,8 @@ def coverage_of(groups):
                 pk = a.get("pkt") or {}
                 fwd = bool(pk.get("memo")) or bool(a.get("memo"))
                 cov["PFM:%s:%s" % (name, d["res"])] += 1
+                if name == "XImport":
+                    cov["PFM:XImport/%s:%s" % (d.get("xi"), d["res"])] += 1
                 if d["res"] == "ok":
                     if d["sent"] and name in ("Recv", "Timeout"):
                         cov["PFM:%s/%s:ok" % (name, "forward" if name == "Recv" else "retry")] += 1
@@ -570,7 +587,7 @@ def run_family(tier, seed, binary=None):
     by_id = {s["id"]: s for s in allsched}
     failing = {}
     for tr, step, prop, clause in fails:
-        if prop in PROPS:
+        if prop in PROPS + DIAG_PROPS:
             failing.setdefault(tr, by_id.get(tr))
     conf = collections.Counter("%s:%s" % (f[0].split("-")[0], f[3]) for f in fails if f[2] == "CONF")
     samples = {}
@@ -580,7 +597,7 @@ def run_family(tier, seed, binary=None):
                          "trace_prefix": [slim(json.loads(l)) for l in lines[:6] if json.loads(l)["tr"] == first]}
     per_kind = {k: {"traces": len(scheds[k]), "steps": len(groups.get(k, []))} for k in scheds}
     result.update({"tier": tier, "seed": seed, "traces": len(allsched), "steps": steps,
-                   "fails": [list(f) for f in fails if f[2] in PROPS], "conformance_diagnostics": dict(conf),
+                   "fails": [list(f) for f in fails if f[2] in PROPS + DIAG_PROPS], "conformance_diagnostics": dict(conf),
                    "coverage": dict(cov), "sigs": sigs, "failing_schedules": failing, "sample": samples.get("RL"),
                    "samples": samples, "per_kind": per_kind, "excluded_known_classes": excl, "wall": time.time() - t0})
     return result
@@ -628,7 +645,7 @@ def replay(schedule, binary=None):
         binary = harness_binary()
     groups = drive(binary, [schedule], workdir, "replay", 1)
     fails, _ = validate(groups, workdir, "replay")
-    return [f for f in fails if f[2] in PROPS], groups
+    return [f for f in fails if f[2] in PROPS + DIAG_PROPS], groups
 
 
 # ------------------------------------------------------------------------------------------ known findings
